@@ -66,6 +66,7 @@ type State struct {
 type Run struct {
 	Cfg   Cfg    `json:"cfg"`
 	Fault *Fault `json:"fault"`
+	Glue  *Glue  `json:"glue,omitempty"` // through RotateAll / portCHEnv (glue.go) instead of a direct Rotate call
 	// observations
 	Log   []Call `json:"log"`
 	Err   bool   `json:"err"`
@@ -316,7 +317,11 @@ func runCase(c *Case) {
 		if r.Cfg.Days == nil {
 			r.Cfg.Days = []Policy{}
 		}
-		r.Log, r.Err, r.Panic = rotateOnce(f, &r.Cfg, r.Fault)
+		if r.Glue != nil {
+			r.Log, r.Err, r.Panic = glueOnce(f, r.Glue, r.Fault)
+		} else {
+			r.Log, r.Err, r.Panic = rotateOnce(f, &r.Cfg, r.Fault)
+		}
 		if r.Log == nil {
 			r.Log = []Call{}
 		}
@@ -598,7 +603,10 @@ func main() {
 	// --n is a budget of Rotate runs
 	for runs < f.N {
 		var cs []Case
-		switch x := r.Intn(20); {
+		switch x := r.Intn(26); {
+		case x >= 20:
+			cs = []Case{genGlueSeq(r, id)}
+			id++
 		case x < 10:
 			cs = []Case{genSeq(r, id)}
 			id++
